@@ -40,7 +40,7 @@ CHECKS = {
    note="46 known findings sharing about four root causes (result of the nested assemble() in parse_ifdef_ignore discarded; duplicate .define / `.if (` diagnosed but exit 0; unterminated .if / stray .endif accepted silently; avr8/propeller2 operand-array overruns). CPU is not part of the key. ELF well-formedness is left to C03."),
  "C13": dict(engine="cli+vdrv", design="3/C13",
    technique="runtime monitoring: differential runs of the real CLI across repetition, reporting options (-l, -q, -dump_symbols, -dump_macros), output name/directory, output type (decoded images), ASan malloc_fill_byte 0x00 vs 0xA5, and in-process history (the in-process driver assembling unrelated programs of other CPUs first); all images must be identical",
-   text="Exploration: 250 (quick) / 4000 (thorough) generated programs x 15 configurations; hex files compared byte-for-byte, srec/bin/elf as decoded images, in-process images after 0..3 unrelated assemblies and on immediate repetition compared with the fresh-process image.",
+   text="Exploration: ~700 (quick) / 4600 (thorough) generated programs (single instructions of 47 CPUs, multi-statement programs with macros/includes/conditionals/repeat, scoped and shadowed labels, data runs crossing 64 KiB boundaries at non-16-aligned distances) x 15 configurations; hex files compared byte-for-byte, srec/bin/elf as decoded images, in-process images after 0..3 unrelated assemblies and on immediate repetition compared with the fresh-process image.",
    note="Compiler-level initialisation regimes (-ftrivial-auto-var-init) and the interactive `asm` command of naken_util (which cannot assemble at all, see C19 finding S22) are not exercised. ELF comparisons skipped where C03's ELF findings interfere."),
  "C19": dict(engine="cli", design="3/C19",
    technique="runtime monitoring: shadow-memory monitor over scripted naken_util sessions (ASan/UBSan binary): a Python reference interpreter applies the same write/print/disasm/set commands to a {byte address -> value} map under the documented addressing rules and every printed row is compared",
@@ -72,11 +72,11 @@ CHECKS = {
    note="Trusts vf/ref/directives.py as the reading of the documentation; the decimal literal -9223372036854775808 is outside the domain."),
  "C06": dict(engine="vdrv", design="3/C06",
    technique="runtime monitoring: injectivity (pigeonhole) monitor over the real assembler's output: for one instruction form at one address, distinct accepted operand values must give distinct encodings unless they are signed/unsigned spellings of one field value",
-   text="Exploration: every corpus form with a numeric operand x ~330 probe values (0..9, +-2^k, +-2^k+-1/2, address-relative distances) assembled in the sanitizer build; accepted values grouped by emitted bytes; collisions keyed (cpu, mnemonic, operand index, wrap modulus). The many collisions of the unchanged tree are catalogued per form instance; a collision on any other form or with another modulus is reported.",
+   text="Exploration: every form with a numeric operand from tests/comparison/*.txt plus, for all 68 CPUs, one representative per (mnemonic, operand shape) harvested from the real disassembler's 16-bit sweep (two tail fillings) that the assembler accepts, x ~450 probe values (0..9, +-2^k, +-2^k+-1/2, address-relative distances) assembled in the sanitizer build; accepted values grouped by emitted bytes; collisions keyed (cpu, mnemonic, operand index, wrap modulus). Quick and thorough cover the same forms. The collisions of the unchanged tree (2400 keys) are catalogued per form instance; a collision on any other form or with another modulus is reported.",
    note="Needs no knowledge of field widths; values outside [-2^31, 2^32) are not probed (the global 64->32-bit narrowing is one separate finding). A form that rejects nothing or accepts < 2 values is non-decisive and counted as such."),
  "C07": dict(engine="vdrv", design="3/C07",
    technique="runtime monitoring: round-trip monitor from the binary side (real disassembler -> real assembler at the same address -> real disassembler) over the exhaustive 16-bit leading-pattern sweep in the ASan/UBSan build",
-   text="Exploration, exhaustive over the leading 16 bits in the thorough tier: every decodable pattern of every CPU is rendered, re-assembled at the same address and decoded again; a changed mnemonic or operand after numeric normalisation is a violation unless the new text is an alias that assembles to the same bytes. quick: one representative per (cpu, mnemonic, operand shape) plus a seeded sample.",
+   text="Exploration, exhaustive over the leading 16 bits in the thorough tier: every decodable pattern of every CPU (two tail fillings) is rendered, re-assembled at the same address and decoded again; a changed mnemonic or operand after numeric normalisation (signed/unsigned spellings of one 8/16/32/64-bit value are equal) is a violation unless the new text is an alias that assembles to the same bytes. Both tiers add 24 operand-byte boundary fillings (0x0f, 0x10, 0x7f, 0x80, 0xff ... in the first or second byte after the pattern) for one representative per (cpu, mnemonic, operand shape). quick: representatives plus a seeded sample.",
    note="W' != W alone is not a violation (don't-care bits). Renderings the assembler rejects are vacuous."),
  "C04": dict(engine="vdrv+cli", design="3/C04",
    technique="runtime monitoring: reference-model oracle (64-bit evaluator) over .dc64 expressions assembled by the sanitizer build",
@@ -84,7 +84,7 @@ CHECKS = {
    note="Trusts vf/ref/expr.py as the reading of the statement; '/' '%' truncate toward zero; shifts outside 0..63, >> of negatives and INT64_MIN/-1 are masked."),
  "C08": dict(engine="vdrv+cli", design="3/C08",
    technique="runtime monitoring: exhaustive 16-bit decode sweep under ASan/UBSan with exact-size text buffer, locality re-decodes, range-tiling monitor against the decoder walk, CLI disassembly runs under CPU-time watchdog",
-   text="Exploration, exhaustive over the leading 16 bits: all 65536 leading patterns x tail fillings per CPU are decoded by the real single-instruction disassemblers in the sanitizer build; termination, NUL-termination inside the 128-byte buffer, length bounds and independence from following bytes are asserted per decode; address tiling of the real disasm_range output is compared with the decoder walk; naken_util -disasm runs on generated files. Violations present in the unchanged tree are catalogued per input in known-findings.txt; any input outside the catalogue is reported.",
+   text="Exploration, exhaustive over the leading 16 bits: all 65536 leading patterns x tail fillings per CPU are decoded by the real single-instruction disassemblers in the sanitizer build; termination, NUL-termination inside the 128-byte buffer, length bounds and independence from following bytes are asserted per decode; address tiling of the real disasm_range output is compared with the decoder walk; naken_util -disasm runs on generated files, and whole-image coverage of `naken_util -bin -address A -disasm` against the decoder walk for images ending on/around 64 KiB page boundaries. Violations present in the unchanged tree are catalogued per input in known-findings.txt; any input outside the catalogue is reported.",
    note="Maximum instruction length is an over-approximation (16 bytes, unbounded for java/webasm/dotnet); tms1000/tms1100 range output is only checked for termination; range ends near 2^32 not explored."),
 }
 
